@@ -240,7 +240,7 @@ Charge(P, d, Z) ==
 (* EV.reset(): energy_delivered = 0 and Battery.reset(): charge back to the *)
 (* initial charge, charging power 0.                                        *)
 Reset ==
-    /\ AllowReset /\ nops < MaxOps /\ last \in {"charge", "resetto"}
+    /\ AllowReset /\ nops < MaxOps /\ last \in {"charge", "resetto", "resetbad"}
     /\ lo' = bat.init /\ hi' = bat.init /\ base' = bat.init
     /\ eLo' = 0 /\ eHi' = 0 /\ dLo' = 0 /\ dHi' = 0 /\ pE' = 0 /\ mE' = 0
     /\ dec' = TRUE
